@@ -60,7 +60,7 @@ ASSUMPTIONS = [
 PROBES = ["mixed_cell_shapes_2d", "two_subdomains_same_dim_different_mix", "polyhedral_3d", "interface_data", "vector_data", "ge_11_exports", "non_integer_times",
           "times_closer_than_1e-6", "crash_in_times_json", "crash_in_vtu", "crash_in_step_pvd", "crash_in_collecting_pvd", "crash_between_exports", "torn_file",
           "restart_route_pvd", "restart_route_mdg_pvd", "restart_route_vtu", "second_restart", "third_restart", "restart_raised_after_midexport_crash",
-          "continue_after_restart", "crash_during_restart_before_any_output", "data_tuples_not_in_mdg_order", "constants_exported_separately", "stale_output_of_previous_run_in_folder", "io_error_during_export", "times_to_export_subset", "step_not_exported", "readonly_import_of_older_step", "zero_d_subdomain", "export_after_vtu_route_restart_raises"]
+          "continue_after_restart", "crash_during_restart_before_any_output", "data_tuples_not_in_mdg_order", "constants_exported_separately", "stale_output_of_previous_run_in_folder", "io_error_during_export", "rejected_export_in_the_middle_of_a_run", "grid_replaced_between_exports", "export_after_rejected_export_raises", "times_to_export_subset", "step_not_exported", "readonly_import_of_older_step", "zero_d_subdomain", "export_after_vtu_route_restart_raises"]
 
 KEYS_SD = ["p"]
 
@@ -91,6 +91,11 @@ class Host(pp.DataSavingMixin):
         if self._key_intf:
             for g, d in self.mdg.interfaces(return_data=True, codim=1):
                 out.append((g, self._key_intf, d[pp.TIME_STEP_SOLUTIONS][self._key_intf][0]))
+        if getattr(self, "bad_next", False):
+            # a buggy model step: one array of the wrong size (the exporter documents a ValueError for such data)
+            g, k, v = out[-1]
+            out[-1] = (g, k, np.asarray(v)[:-1] if np.asarray(v).size > 1 else np.concatenate([np.asarray(v), np.asarray(v)]))
+            self.bad_next = False
         # the order in which a model lists its (grid, key, values) tuples is the caller's choice
         order = getattr(self, "tuple_order", None)
         if order is not None and len(order) == len(out):
@@ -339,6 +344,15 @@ def run_exporter(ch, tr: Trace) -> None:
                     raise  # the injected environment failure, handled by the history loop as the end of this process
                 raise Violation("export_of_valid_data_completes", f"export of step {k} raised an OSError that was not injected", "export_raised")
             except Exception as e:  # noqa: BLE001  nothing can be restored from an export that does not complete
+                if sess.get("had_rejected"):
+                    # Seen on the pinned tree and outside the statement of C38: an export rejected for malformed data
+                    # leaves the exporter's bookkeeping of constant-data files one entry short, and with
+                    # export_constants_separately every later export of that exporter raises IndexError.  The run ends
+                    # here without a verdict (what is on disk is still restorable, and is checked in other runs).
+                    durable[k] = prev if prev is not None else durable.pop(k) and None
+                    if durable.get(k) is None:
+                        durable.pop(k, None)
+                    raise EndOfRun("export_after_rejected_export_raises")
                 raise Violation("export_of_valid_data_completes", f"export of step {k} raised {e!r}", "export_raised")
             rec["complete"] = True
             written_this_session.append(k)
@@ -349,6 +363,32 @@ def run_exporter(ch, tr: Trace) -> None:
             if len([1 for d in durable.values() if d["complete"]]) >= 11:
                 tr.probe("ge_11_exports")
             tr.state((min(last_complete[0] + 1, 12), cycle[0], "export", True))
+
+        def do_rejected_export(sess):
+            """A time step whose export is rejected (data of the wrong size): the caller catches the error and goes on.
+            Nothing of this step is durable; later exports and restarts must be unaffected."""
+            tm = sess["tm"]
+            dt = next_time()
+            tm.dt = dt
+            tm.time = tm.time + dt
+            tm.time_index += 1
+            gen[0] += 1
+            write_state(sess["mdg"], world, None, gen[0])
+            sess["host"].bad_next = True
+            sess["host"].tuple_order = None
+            try:
+                sess["host"].write_pvd_and_vtu()
+            except SimCrash:
+                raise
+            except Exception as e:  # noqa: BLE001
+                sess["host"].bad_next = False
+                sess["had_rejected"] = True
+                tr.fault("rejected-call", "export_of_malformed_data")
+                tr.probe("rejected_export_in_the_middle_of_a_run")
+                tr.op("export", "rejected", type(e).__name__, changing=False)
+                return
+            sess["host"].bad_next = False
+            raise EndOfRun("malformed_data_accepted_by_exporter")
 
         durable_inprogress = [None]
         io_armed = [False]
@@ -440,6 +480,8 @@ def run_exporter(ch, tr: Trace) -> None:
                 for j in range(n):
                     ch.begin("export")
                     try:
+                        if ch.flag(1, 8):
+                            do_rejected_export(sess)
                         want_crash = cycle[0] < max_cycles and j == n - 1
                         if want_crash and crash_midexport:
                             # crash at a drawn crossing inside this export; the number of crossings of an export is
@@ -785,5 +827,68 @@ WORKLOADS.append(
         name="model_mp", leak_mb=3.5, override_cap=10, run=run_model_level_mp, runs={"quick": 32, "thorough": 1_200}, chunk=2, run_timeout=600.0,
         real=["as workload model, physics = MassAndEnergyBalance / MomentumBalance with contact mechanics / Poromechanics: vector-valued displacement, interface displacement, contact traction, temperature and enthalpy-flux variables are exported, crashed, imported and compared"],
         stub=["open() interposer (crash at a drawn crossing, torn file)", "fault-injecting overrides of check_convergence/solve_linear_system"],
+    )
+)
+
+
+# --------------------------------------------------------------------------------------
+# L1b: one exporter whose grid is replaced between exports (fixed_grid=False), import after every export
+def run_regrid(ch, tr: Trace) -> None:
+    from engines import gridgen
+
+    with ch.span("config"):
+        n_steps = ch.rng(2, 6)
+        vector = ch.flag()
+    with envseam.scratch() as root:
+        folder = Path(root) / "viz"
+        g, shapes = gridgen.mixed_grid_2d(ch, force_mixed=ch.flag(2, 3))
+        ex = pp.Exporter(g, "data", folder_name=folder, fixed_grid=False)
+        tr.emit("config", shapes, n_steps, vector)
+        gen = 0
+        for step in range(n_steps):
+            ch.begin("step")
+            try:
+                new_grid = step > 0 and ch.flag(1, 2)
+                if new_grid:
+                    g, shapes = gridgen.mixed_grid_2d(ch, force_mixed=ch.flag(2, 3))
+                    tr.probe("grid_replaced_between_exports")
+                do_import = ch.flag(3, 4)  # an import fills whatever the exporter caches about the current grid
+            finally:
+                ch.end()
+            gen += 1
+            p_val = 1.0e4 * gen + np.arange(g.num_cells) + 0.5
+            u_val = 1.0e4 * gen + 0.125 * np.arange(3 * g.num_cells) + 0.25
+            data = [(g, "p", p_val)] + ([(g, "u", u_val)] if vector else [])
+            try:
+                if new_grid:
+                    ex.write_vtu(data, time_step=step, grid=g)
+                else:
+                    ex.write_vtu(data, time_step=step)
+            except Exception as e:  # noqa: BLE001
+                raise Violation("export_of_valid_data_completes", f"write_vtu at step {step} ({'new grid ' + shapes if new_grid else 'same grid'}) raised {e!r}", "regrid_export_raised")
+            tr.op("export", "ok", step, shapes, new_grid)
+            if not do_import:
+                continue
+            d = ex._mdg.subdomain_data(g)
+            for k in ("p", "u"):
+                pp.set_solution_values(k, np.zeros(g.num_cells * (3 if k == "u" else 1)), d, time_step_index=0)
+            f = folder / ex._make_file_name(Path("data"), None, step, 2).name
+            try:
+                ex.import_state_from_vtu(f, keys=["p", "u"] if vector else ["p"])
+            except Exception as e:  # noqa: BLE001
+                raise Violation("restart_from_complete_exports_succeeds", f"import of step {step} with the exporter that wrote it (cells {shapes}) raised {e!r}", "regrid_import_raised")
+            for k, exp in (("p", p_val),) + ((("u", u_val),) if vector else ()):
+                got = pp.get_solution_values(k, d, time_step_index=0)
+                if not np.array_equal(np.asarray(got).ravel(), exp):
+                    raise Violation("restart_restores_one_exported_step", f"step {step} (cells {shapes}, {'grid replaced' if new_grid else 'same grid'}): {k} restored as {np.asarray(got).ravel().tolist()[:8]}..., written {exp.tolist()[:8]}...", "regrid_values_wrong")
+            tr.op("import", "ok", step, changing=False)
+        tr.emit("end", n_steps)
+
+
+WORKLOADS.append(
+    Workload(
+        name="regrid", leak_mb=0.5, override_cap=60, run=run_regrid, runs={"quick": 400, "thorough": 40_000}, chunk=25, run_timeout=120.0,
+        real=["pp.Exporter with fixed_grid=False: write_vtu(..., grid=new_grid) between exports, import_state_from_vtu by the same exporter object after each export; generated 2-d grids mixing triangles, quadrilaterals and hexagons"],
+        stub=["none (real files in a scratch folder)"],
     )
 )
